@@ -138,7 +138,8 @@ class BlockComment(Lexer):
 
     tokens = {BLOCK_COMMENT_END}
 
-    @_(r".*\*/")
+    # non-greedy: the comment ends at the first */, not at the last one of the line
+    @_(r".*?\*/")
     def BLOCK_COMMENT_END(self, t):
         self.pop_state()
 
